@@ -4,7 +4,7 @@ def plan(tier):
         "mc": [{"module": "ExactMatchMC", "cfg": "ExactMatchMC.cfg" if q else "ExactMatchMC_thorough.cfg",
                 "timeout": 1500}],
         "families": [{"fam": "exact", "trace": "ExactMatchTrace"}],
-        "required_obligations": ["exhaustive_small", "self_overlap_all_borders", "text_of_a_million_symbols", "pattern_longer_than_65536", "len63", "len64", "len65_refused", "alignment_sweep_len64", "alignment_sweep_pattern_longer_than_256"],
+        "required_obligations": ["exhaustive_small", "self_overlap_all_borders", "text_of_a_million_symbols", "pattern_longer_than_65536", "pattern_longer_than_65536_low_bytes", "text_symbols_aliasing_pattern_symbols", "len63", "len64", "len65_refused", "alignment_sweep_len64", "alignment_sweep_pattern_longer_than_256"],
         "rule": "one run = one matcher object (algo,pattern) applied to several texts; exhaustive over {a,b} "
                 "(|p|<=4,|t|<=7 quick; 5/9 thorough) for all five matchers, every binary pattern of length 5..9(11) "
                 "against all of its self-overlap texts p[..s]+p, plus unary/periodic/random patterns "
